@@ -33,7 +33,8 @@ class C05(Check):
     rule = ("driver programs = hand written feature programs + the reachability space (one program per holder kind through which a fresh object stays reachable; every non-blocking send/receive history of length <= 6 (thorough 7) on buffered channels of capacity 1-3 with fresh payloads) + the repository's fixture scripts (+ smallest-bound slices of the "
             "generated program spaces); per program with N allocation points: schedules never, every x {natural,nursery,full}, "
             "period 2/3/5/7 (full), every single allocation point x {nursery, full}; thorough adds every pair of points "
-            "(N<=60: all pairs, else window 12) x {full+full, nursery+full} and the no-poison quarantine mode; "
+            "(N<=60: all pairs, else window 12) x {full+full, nursery+full} and the no-poison quarantine mode; the reachability and channel-history programs "
+            "(thorough: all programs) are run a second time under an eager-reuse allocator (a released block is handed out again at once); "
             "allocator = quarantine+poison with liveness oracle; oracle = observation identical to schedule `never`. "
             "non-trivial = a (program, schedule) in which a collection ran and released at least one block")
     assumptions = ["collections can only start at allocation points, so a set of allocation points subsumes every byte threshold",
@@ -134,4 +135,19 @@ def main(tier):
             merged["fail_count"] += m2["fail_count"]
             merged["evaluations"] += m2["evaluations"]
             merged["nontrivial"] += m2["nontrivial"]
+    # eager reuse: a released block is handed out again by the next request of its size class, so a reference that survived its object
+    # (a table entry, a cached pointer) reads another object's bytes instead of poison; reachability and channel-history programs (quick), all (thorough)
+    sub = [p for p in progs if tier == "thorough" or p[0].startswith(("reach:", "chanhist"))]
+    for alloc in (("reuse_lifo", "reuse_fifo") if tier == "thorough" else ("reuse_lifo",)):
+        b3 = baseline(sub, "checked", alloc)
+        c3 = C05(sub, b3, "checked", "quick", alloc)
+        m3 = explore(c3, "quick", cap_s=900)
+        cov["eager_" + alloc] = {"programs": len(sub), "evaluations": m3["evaluations"], "failing": m3["fail_count"], "capped": m3["capped"]}
+        for f in m3["failures"][:10]:
+            f["reason"] = "[allocator %s] %s" % (alloc, f["reason"])
+        merged["failures"].extend(m3["failures"][:10])
+        merged["fail_count"] += m3["fail_count"]
+        merged["evaluations"] += m3["evaluations"]
+        merged["nontrivial"] += m3["nontrivial"]
+        merged["capped"] = merged["capped"] or m3["capped"]
     return report.finish(chk, tier, merged, t0, coverage_extra=cov)
